@@ -281,7 +281,7 @@ func runC18(c *Ctx) {
 		"and at least 3 READ/WRITE requests")
 	nProg := 160
 	if c.Thorough() {
-		nProg = 2000
+		nProg = 1600
 	}
 	child, err := startChild("c18", 6000000)
 	if err != nil {
